@@ -164,8 +164,18 @@ def run_case(case):
 
         rank = int(rng.integers(1, 4))
         nseg = int(rng.integers(1, 9))
-        sizes = rng.integers(1, 6, nseg)
+        narrow = None
+        if case["index"] % 4 == 3:
+            # many segments with ids stored in a NARROW integer dtype that holds the number of
+            # segments but not the number of rows (ids are a legitimate input of the primitive)
+            narrow = [np.uint8, np.int8, np.int16][int(rng.integers(0, 3))]
+            nseg = int(rng.integers(60, 121))
+            rank = int(rng.integers(1, 3))
+        sizes = rng.integers(1, 6, nseg) if narrow is None else rng.integers(2, 7, nseg)
         seg = np.repeat(np.arange(nseg), sizes)
+        if narrow is not None:
+            seg = seg.astype(narrow)
+            add("segment_narrow_id_cases")
         shape = (len(seg),) + tuple(int(x) for x in rng.integers(1, 5, rank - 1))
         ties = rng.random() < 0.4
         near = (not ties) and rng.random() < 0.5
